@@ -20,8 +20,14 @@ class _MockSolver:
     def __init__(self, verdict: Tag, model: Dict[Any, Any]):
         self.added: List[Any] = []
         self.verdict, self.model_map = verdict, model
-        self.obj = Obj(["Solver"], add=self.add, check=lambda: self.verdict, model=lambda: self.model_map,
-                       assert_exprs=self.add, append=self.add)
+        self.options: List[Any] = []
+        self.obj = Obj(["Solver"], add=self.add, check=lambda: self.verdict, model=self.model,
+                       assert_exprs=self.add, append=self.add, set=lambda *a, **k: self.options.append((a, k)))
+
+    def model(self) -> Any:
+        if self.verdict != Tag("z3.sat"):
+            raise Raised("Z3Exception('model is not available')")
+        return self.model_map
 
     def add(self, *args: Any) -> None:
         for a in args:
@@ -52,7 +58,9 @@ def check_z3_backend(repo: Repo, rep: Report) -> None:
         for nm in ("z3.is_expr", "z3.is_bool", "z3.is_ast"):
             ns.setdefault(nm, lambda x: isinstance(x, (Tag, Obj)))
         ns.update(extra)
-        cw = ClassWorld([mod], extra_funcs=ns, pre_env={"Op": Tag("Op"), "z3": Tag("z3"), "importlib": Tag("importlib")})
+        # the configuration object as a module global would see it (only the time limit matters to a backend)
+        conf = Obj(["Config"], solver_timeout=state.get("timeout"), name="config")
+        cw = ClassWorld([mod], extra_funcs=ns, pre_env={"Op": Tag("Op"), "z3": Tag("z3"), "importlib": Tag("importlib"), "config": conf})
         state["cw"] = cw
         return cw.ev, cw.genv
 
@@ -174,6 +182,29 @@ def check_z3_backend(repo: Repo, rep: Report) -> None:
         else:
             rep.finding("Z3M-3", Z3_FILE, "Z3Backend.solve", "constraint assertion",
                         "the converted constraints are not passed to the z3 solver", solve.lineno)
+        # z3 answers "unknown" (a time limit, an incomplete theory): neither verdict may be reported - reading the model raises, as z3 does
+        for tmo in (None, 0.5):
+            state["timeout"] = tmo
+            try:
+                ev, genv = world({"__compare__": lambda op, a, b: _cmp(op, a, b)})
+                ms = _MockSolver(Tag("z3.unknown"), {})
+                ev.funcs["z3.Solver"] = lambda ms=ms: ms.obj
+                ev.funcs["z3.is_true"] = lambda x: x is True
+                iv, bv = mkvar("IntVar", 0, 0, 2), mkvar("BoolVar", 1)
+                selfo = mkself(variables=[iv, bv], variables_dict={0: Tag("iterm"), 1: Tag("bterm")}, converted_constraints=[c0], name="self")
+                try:
+                    r = fde.FunctionValue(solve, ev, genv, self_obj=selfo)()
+                except Raised:
+                    r = "raised"
+            finally:
+                state["timeout"] = None
+            if r is False or r is True:
+                rep.finding("Z3M-3", Z3_FILE, "Z3Backend.solve", "verdict unknown",
+                            f"with z3's verdict 'unknown' (config.solver_timeout = {tmo!r}) solve() returns {r!r}: a program that z3 did not decide "
+                            f"is reported {'unsatisfiable' if r is False else 'satisfiable'}", solve.lineno)
+                break
+        else:
+            rep.ok("Z3M-3", "verdict unknown (with and without a configured time limit): neither True nor False is returned", nontrivial=False)
         # constraints that converted to Python constants (a constant operator node, a literal): a False among them makes the program
         # unsatisfiable whatever z3 says about the rest - it is asserted like any other, or answered False at once
         is_term = lambda x: isinstance(x, (Tag, Obj))  # noqa: E731
